@@ -124,6 +124,46 @@ pub(crate) mod verif_c {
         rt::<AccountInfoED>(x, Some(72));
     }
 
+    /// a receipt without logs (the 256-byte bloom is concrete; every other field symbolic): exact
+    /// consumption incl. the trailing legacy fields that encode still writes, and field equality
+    #[kani::proof]
+    fn p3_tx_receipt_nologs() {
+        use crate::db::types::{AddressED, B2048ED, TxReceiptED, U8ED};
+        let to_some: bool = kani::any();
+        let x = TxReceiptED {
+            status: U8ED::from(kani::any::<u8>()),
+            logs: Vec::new(),
+            gas_used: U64ED::from(kani::any::<u64>()),
+            from: AddressED::from(kani::any::<[u8; 20]>()),
+            to: if to_some { Some(AddressED::from(kani::any::<[u8; 20]>())) } else { None },
+            contract_address: if to_some { None } else { Some(AddressED::from(kani::any::<[u8; 20]>())) },
+            logs_bloom: B2048ED::from([0u8; 256]),
+            block_hash: B256ED::from(kani::any::<[u8; 32]>()),
+            block_number: U64ED::from(kani::any::<u64>()),
+            transaction_hash: B256ED::from(kani::any::<[u8; 32]>()),
+            transaction_index: U64ED::from(kani::any::<u64>()),
+            cumulative_gas_used: U64ED::from(kani::any::<u64>()),
+            effective_gas_price: U64ED::from(0u64),
+            transaction_type: U8ED::from(0u8),
+        };
+        let tail: [u8; 2] = kani::any();
+        let mut b = x.encode_vec();
+        let n = b.len();
+        b.push(tail[0]);
+        b.push(tail[1]);
+        let (y, off) = TxReceiptED::decode(&b, 0).unwrap();
+        assert!(off == n);
+        assert!(y.status == x.status && y.gas_used == x.gas_used && y.from == x.from && y.to == x.to);
+        assert!(y.contract_address == x.contract_address && y.block_hash == x.block_hash && y.block_number == x.block_number);
+        assert!(y.transaction_hash == x.transaction_hash && y.transaction_index == x.transaction_index);
+        assert!(y.cumulative_gas_used == x.cumulative_gas_used && y.logs.len() == 0);
+        kani::cover!(to_some);
+        kani::cover!(!to_some);
+        core::mem::forget(b);
+        core::mem::forget(x);
+        core::mem::forget(y);
+    }
+
     // ---- P4: a < b <=> enc(a) <lex enc(b) ---------------------------------------------------
     /// storage keys of one account order like their slots (U512ED::from_addr_u256 is the key of the
     /// storage table); slots differing in any byte position
